@@ -1,5 +1,243 @@
-import EnvVerif.Lemmas.Basic
+/-
+  Props/C03.lean — C03 "elision hides exactly the targets and leaves no trace".
+
+  Positions are `Path`s (`Env.at`, Lemmas/Paths.lean).  For a position `p` of the
+  original `e` with element `y`:
+  * `ShallowEq x y` — same constructor, same own content (leaf value / known value /
+    encrypted or compressed message), same digest, same number of assertions;
+  * `IsPlaceholder A Z act y x` — what the action leaves in the place of `y`:
+      elide     ↦ `x = .elided y.digest`
+      compress  ↦ `x = compressOrSelf Z y`  (`.compressed (deflate (encode y)) y.digest`, or
+                   `y` itself if it is already elided / encrypted / compressed)
+      encrypt   ↦ `x = .encrypted (encryptWithDigest A key (nonce y.digest) (encode y) y.digest) y.digest`
+  * `AgreeOutside hit e1 e2` — the same tree outside the subtrees whose root digest is
+    hit, equal digests at those roots (inductive, Lemmas/ElideLemmas.lean).
+  Hypotheses: `Inv h e` and `ActOk act e` exactly as in C02.
+-/
+import EnvVerif.Lemmas.ElideLemmas
 namespace EnvVerif
-/-- placeholder while the property theorems are being written -/
-theorem c03_sort_asc_id {as : List Env} (hs : AscDigests as) : sortByDigest as = as := sortByDigest_of_asc hs
+open Env
+
+section
+variable (h : Hash) (A : Aead) (Z : Deflate) (T : Digest → Bool) (act : Action)
+
+/-! ### removing elision: hidden iff own or an ancestor's digest is in `T` -/
+
+/-- For every position `p` of the original:
+ 1. if no digest on the chain root..`p` is in `T`, the element is present at `p` in the
+    result and shallowly equal;
+ 2. if `p` is a topmost target, the result holds the action's placeholder at `p` and has
+    no position below `p`;
+ 3. if a proper ancestor of `p` is a target, `p` does not exist in the result. -/
+theorem removing_spec {e r : Env} (hi : Inv h e) (ha : ActOk act e)
+    (hr : elideSet h A Z T false act e = .ok r) :
+    ∀ p y, e.at p = some y →
+      ((∀ q, q <+: p → ∀ z, e.at q = some z → T z.digest = false) →
+        ∃ x, r.at p = some x ∧ ShallowEq x y) ∧
+      (T y.digest = true →
+        (∀ q, q <+: p → q ≠ p → ∀ z, e.at q = some z → T z.digest = false) →
+        ∃ x, r.at p = some x ∧ IsPlaceholder A Z act y x ∧ ∀ s q, r.at (p ++ s :: q) = none) ∧
+      ((∃ q z, q <+: p ∧ q ≠ p ∧ e.at q = some z ∧ T z.digest = true) → r.at p = none) := by
+  intro p y hy
+  obtain ⟨sA, sB, sC⟩ := elideSet_spec h A Z T false act hi ha hr p y hy
+  refine ⟨?_, ?_, ?_⟩
+  · intro hn
+    exact sA (fun q hq z hz => by simpa using hn q hq z hz)
+  · intro hhit hn
+    exact sB (by simpa using hhit) (fun q hq hne z hz => by simpa using hn q hq hne z hz)
+  · rintro ⟨q, z, hq, hne, hz, hhit⟩
+    apply sC
+    intro hn
+    have := hn q hq hne z hz
+    simp [hhit] at this
+
+example : Inv Sample.toyH Sample.e0 ∧ ActOk act Sample.e0 := ⟨Sample.inv_e0, Sample.actOk_e0 act⟩
+
+/-- a position of the original survives (as itself or as a placeholder) iff no proper
+ancestor is a target -/
+theorem removing_present_iff {e r : Env} (hi : Inv h e) (ha : ActOk act e)
+    (hr : elideSet h A Z T false act e = .ok r) {p : Path} {y : Env} (hy : e.at p = some y) :
+    (∃ x, r.at p = some x) ↔
+      ∀ q, q <+: p → q ≠ p → ∀ z, e.at q = some z → T z.digest = false := by
+  obtain ⟨sA, sB, sC⟩ := elideSet_spec h A Z T false act hi ha hr p y hy
+  constructor
+  · rintro ⟨x, hx⟩ q hq hne z hz
+    by_cases hn : NoHitAbove T false e p
+    · simpa using hn q hq hne z hz
+    · rw [sC hn] at hx; cases hx
+  · intro hn
+    have hn' : NoHitAbove T false e p := fun q hq hne z hz => by simpa using hn q hq hne z hz
+    by_cases hhit : (T y.digest != false) = true
+    · obtain ⟨x, hx, _⟩ := sB hhit hn'; exact ⟨x, hx⟩
+    · have hup : NoHitUpTo T false e p := by
+        intro q hq z hz
+        by_cases hqp : q = p
+        · subst hqp; rw [hy] at hz; cases hz; simpa using hhit
+        · exact hn' q hq hqp z hz
+      obtain ⟨x, hx, _⟩ := sA hup; exact ⟨x, hx⟩
+
+example : Inv Sample.toyH Sample.e0 ∧ ActOk act Sample.e0 ∧ Sample.e0.at [.assertion 1, .obj] = some (Sample.lf 4) :=
+  ⟨Sample.inv_e0, Sample.actOk_e0 act, rfl⟩
+
+/-- with the elide action a topmost target is replaced by nothing but its digest -/
+theorem removing_elide_placeholder {e r : Env} (hi : Inv h e)
+    (hr : elideSet h A Z T false .elide e = .ok r) {p : Path} {y : Env} (hy : e.at p = some y)
+    (hhit : T y.digest = true)
+    (hn : ∀ q, q <+: p → q ≠ p → ∀ z, e.at q = some z → T z.digest = false) :
+    r.at p = some (.elided y.digest) ∧ ∀ s q, r.at (p ++ s :: q) = none := by
+  obtain ⟨x, hx, hp, hb⟩ := (removing_spec h A Z T .elide hi trivial hr p y hy).2.1 hhit hn
+  simp only [IsPlaceholder] at hp; subst hp
+  exact ⟨hx, hb⟩
+
+/-- concretely: eliding the first assertion (digest 3) of the sample `7 [1: 2, 1: 4]` leaves
+exactly `.elided ⟨3⟩` at that position -/
+example (r : Env) (hr : elideSet Sample.toyH A Z Sample.T3 false .elide Sample.e0 = .ok r) :
+    r.at [.assertion 0] = some (.elided ⟨3⟩) ∧ ∀ s q, r.at ([.assertion 0] ++ s :: q) = none := by
+  have := removing_elide_placeholder Sample.toyH A Z Sample.T3 Sample.inv_e0 hr
+    (p := [.assertion 0]) (y := Sample.a1) rfl (by rw [Sample.a1_digest]; rfl) (by
+      intro q hq hne z hz
+      rcases List.prefix_cons_iff.mp hq with rfl | ⟨t, rfl, ht⟩
+      · simp at hz; subst hz; rw [Sample.e0_digest]; rfl
+      · exact absurd (by rw [List.prefix_nil.mp ht]) hne)
+  rwa [Sample.a1_digest] at this
+
+/-- the compress action's placeholder, spelled out: an element that is already obscured is
+left as it is … -/
+theorem compress_placeholder_obscured {y : Env} (ho : y.isObscured = true) : compressOrSelf Z y = y := by
+  cases y <;> first | rfl | (simp [Env.isObscured, Env.isElided, Env.isEncrypted, Env.isCompressed] at ho)
+
+/-- … any other element becomes `COMPRESSED` of its serialization, carrying its digest -/
+theorem compress_placeholder_plain {y : Env} (ho : y.isObscured = false) :
+    compressOrSelf Z y = .compressed (compressedOf Z (encode y)) y.digest := by
+  cases y <;> first | rfl | (simp [Env.isObscured, Env.isElided, Env.isEncrypted, Env.isCompressed] at ho)
+
+/-! ### revealing elision: visible iff own and all ancestors' digests are in `T` -/
+
+theorem revealing_spec {e r : Env} (hi : Inv h e) (ha : ActOk act e)
+    (hr : elideSet h A Z T true act e = .ok r) :
+    ∀ p y, e.at p = some y →
+      ((∀ q, q <+: p → ∀ z, e.at q = some z → T z.digest = true) →
+        ∃ x, r.at p = some x ∧ ShallowEq x y) ∧
+      (T y.digest = false →
+        (∀ q, q <+: p → q ≠ p → ∀ z, e.at q = some z → T z.digest = true) →
+        ∃ x, r.at p = some x ∧ IsPlaceholder A Z act y x ∧ ∀ s q, r.at (p ++ s :: q) = none) ∧
+      ((∃ q z, q <+: p ∧ q ≠ p ∧ e.at q = some z ∧ T z.digest = false) → r.at p = none) := by
+  intro p y hy
+  obtain ⟨sA, sB, sC⟩ := elideSet_spec h A Z T true act hi ha hr p y hy
+  refine ⟨?_, ?_, ?_⟩
+  · intro hn
+    exact sA (fun q hq z hz => by simpa using hn q hq z hz)
+  · intro hhit hn
+    exact sB (by simpa using hhit) (fun q hq hne z hz => by simpa using hn q hq hne z hz)
+  · rintro ⟨q, z, hq, hne, hz, hhit⟩
+    apply sC
+    intro hn
+    have := hn q hq hne z hz
+    simp [hhit] at this
+
+example : Inv Sample.toyH Sample.e0 ∧ ActOk act Sample.e0 := ⟨Sample.inv_e0, Sample.actOk_e0 act⟩
+
+/-- a position of the original survives (as itself or as a placeholder) iff every proper
+ancestor is in `T`; it is visible (shallowly equal) iff moreover its own digest is in `T`
+(first part of `revealing_spec`) -/
+theorem revealing_present_iff {e r : Env} (hi : Inv h e) (ha : ActOk act e)
+    (hr : elideSet h A Z T true act e = .ok r) {p : Path} {y : Env} (hy : e.at p = some y) :
+    (∃ x, r.at p = some x) ↔
+      ∀ q, q <+: p → q ≠ p → ∀ z, e.at q = some z → T z.digest = true := by
+  obtain ⟨sA, sB, sC⟩ := elideSet_spec h A Z T true act hi ha hr p y hy
+  constructor
+  · rintro ⟨x, hx⟩ q hq hne z hz
+    by_cases hn : NoHitAbove T true e p
+    · simpa using hn q hq hne z hz
+    · rw [sC hn] at hx; cases hx
+  · intro hn
+    have hn' : NoHitAbove T true e p := fun q hq hne z hz => by simpa using hn q hq hne z hz
+    by_cases hhit : (T y.digest != true) = true
+    · obtain ⟨x, hx, _⟩ := sB hhit hn'; exact ⟨x, hx⟩
+    · have hup : NoHitUpTo T true e p := by
+        intro q hq z hz
+        by_cases hqp : q = p
+        · subst hqp; rw [hy] at hz; cases hz; simpa using hhit
+        · exact hn' q hq hqp z hz
+      obtain ⟨x, hx, _⟩ := sA hup; exact ⟨x, hx⟩
+
+example : Inv Sample.toyH Sample.e0 ∧ ActOk act Sample.e0 ∧ Sample.e0.at [.assertion 1, .obj] = some (Sample.lf 4) :=
+  ⟨Sample.inv_e0, Sample.actOk_e0 act, rfl⟩
+
+/-! ### what a placeholder is made of -/
+
+/-- an elided element is, in CBOR, a byte string holding its digest … -/
+theorem elided_bytes (d : Digest) : cborOf (.elided d) = .bytes d.bytes := by
+  simp only [cborOf]
+
+/-- … which is always 32 bytes long … -/
+theorem elided_bytes_length (d : Digest) : d.bytes.length = 32 := Digest.bytes_length d
+
+/-- … so its encoding is `58 20 ‖ digest` and nothing else -/
+theorem elided_enc (d : Digest) : (Cbor.bytes d.bytes).enc = 0x58 :: 0x20 :: d.bytes := by
+  simp only [Cbor.enc, Digest.bytes_length, head_2_32, List.cons_append, List.nil_append]
+
+/-- the serialized form of an elided envelope: tag 200, then `58 20 ‖ digest` -/
+theorem elided_encode (d : Digest) :
+    encode (.elided d) = 0xd8 :: 0xc8 :: 0x58 :: 0x20 :: d.bytes := by
+  simp only [encode, taggedCborOf, cborOf, Cbor.enc, Digest.bytes_length, TAG_ENVELOPE, head_2_32,
+    head_6_200, List.cons_append, List.nil_append]
+
+/-- the encrypt action's placeholder: the hidden content `pt` enters only through the AEAD
+output (ciphertext and tag); everything else is the nonce and the digest -/
+theorem encrypted_placeholder_cbor (k n pt : Bytes) (d : Digest) :
+    cborOf (.encrypted (encryptWithDigest A k n pt d) d) =
+      .tagged TAG_ENCRYPTED (.array [.bytes (A.enc k n pt (digestCbor d).enc).1, .bytes n,
+        .bytes (A.enc k n pt (digestCbor d).enc).2, .bytes (digestCbor d).enc]) := by
+  simp only [cborOf, encMsgCbor, encryptWithDigest, digestCbor_enc_nonempty d]
+  rfl
+
+/-! ### no residue -/
+
+/-- **non-interference**: the result of a removing elision (elide action) is a function of
+the part of the envelope outside the hidden subtrees and of the digests of their roots —
+whatever lies below a target leaves no trace, not even in whether the call succeeds -/
+theorem elide_noninterference {e1 e2 : Env} (hag : AgreeOutside T e1 e2) :
+    elideSet h A Z T false .elide e1 = elideSet h A Z T false .elide e2 :=
+  elideSet_elide_congr h A Z T false (by rw [bne_false_fun]; exact hag)
+
+example : AgreeOutside Sample.T3 Sample.e0 Sample.e0' ∧ Sample.e0 ≠ Sample.e0' :=
+  ⟨Sample.agree_e0_e0', Sample.e0_ne_e0'⟩
+
+/-- the same for a revealing elision: hidden is what is *not* in `T` -/
+theorem reveal_noninterference {e1 e2 : Env} (hag : AgreeOutside (fun d => !T d) e1 e2) :
+    elideSet h A Z T true .elide e1 = elideSet h A Z T true .elide e2 :=
+  elideSet_elide_congr h A Z T true (by rw [bne_true_fun]; exact hag)
+
+/-- in particular the serialized results are the same bytes -/
+theorem elide_noninterference_bytes {e1 e2 r1 r2 : Env} (hag : AgreeOutside T e1 e2)
+    (h1 : elideSet h A Z T false .elide e1 = .ok r1)
+    (h2 : elideSet h A Z T false .elide e2 = .ok r2) : encode r1 = encode r2 := by
+  rw [elide_noninterference h A Z T hag, h2] at h1
+  cases h1; rfl
+
+/-! ### un-eliding -/
+
+/-- `unelide` accepts exactly the envelopes whose digest is the placeholder's -/
+theorem unelide_ok_iff (ph e : Env) : (∃ r, unelide ph e = .ok r) ↔ ph.digest = e.digest := by
+  unfold unelide
+  by_cases hd : ph.digest = e.digest
+  · simp [hd]
+  · simp [hd]
+
+/-- … and returns that envelope unchanged -/
+theorem unelide_ok_eq {ph e r : Env} (hr : unelide ph e = .ok r) : r = e := by
+  unfold unelide at hr
+  split at hr
+  · cases hr; rfl
+  · cases hr
+
+/-- … otherwise it is an error, never a panic -/
+theorem unelide_err_iff (ph e : Env) : unelide ph e = .err "InvalidDigest" ↔ ph.digest ≠ e.digest := by
+  unfold unelide
+  by_cases hd : ph.digest = e.digest
+  · simp [hd]
+  · simp [hd]
+
+end
 end EnvVerif
